@@ -120,7 +120,18 @@ func (b *seqBox[T]) Size() int { return len(b.ref) }
 func (b *seqBox[T]) Key() string { return Canon(CanonOpts{}, b.a.obj) }
 func (b *seqBox[T]) Obs() string { return fmtVals(b.ref) }
 
+// Step = Do (the operation on the real object and the reference, return values compared)
+// followed by Content (the cheap observer comparison that runs on every transition).
 func (b *seqBox[T]) Step(o Op) *Viol {
+	if v := b.Do(o); v != nil {
+		return v
+	}
+	return b.content()
+}
+
+func (b *seqBox[T]) Content() *Viol { return b.content() }
+
+func (b *seqBox[T]) Do(o Op) *Viol {
 	p := tag("C05")
 	var zero T
 	switch o.N {
@@ -166,7 +177,7 @@ func (b *seqBox[T]) Step(o Op) *Viol {
 	default:
 		panic("seq op " + o.N)
 	}
-	return b.content()
+	return nil
 }
 
 // content: the cheap comparison run on every transition.
